@@ -478,6 +478,13 @@ func init() {
 			}
 			// packets with several hundred elements (W = 0, every element length-prefixed): element
 			// counters must not be 8 bits wide
+			// OBUs longer than 65535 bytes and OBUs cut into more than 256 fragments
+			for k, cfg := range [][2]int{{1200, 70000}, {40000, 70000}, {65535, 65536 + 40}, {3, 300}, {5, 4 * 270}} {
+				c := r.Fork(uint64(7500 + k))
+				os := []av1OBU{{typ: 6, hasSize: true, payload: c.Bytes(3)}, {typ: c.Pick(3, 6), hasSize: true, payload: c.Bytes(cfg[1])},
+					{typ: 6, hasSize: c.Bool(), payload: c.Bytes(2)}}
+				emitAv1Lossless(c, cfg[0], os, emit)
+			}
 			for _, k := range []int{255, 256, 257, 300, 600} {
 				c := r.Fork(uint64(7000 + k))
 				var os []av1OBU
